@@ -101,6 +101,7 @@ type ReqD struct {
 	CtxKey   int64  // -1 none, -2 non-string value, >= 0 string key id
 	Entry    string // Get GetWithExecution Run RunWithExecution GetAsync GetWithExecutionAsync RunAsync RunWithExecutionAsync
 	NoLsn    [3]bool // executor listeners left unregistered: OnSuccess, OnFailure, OnDone
+	BNoLsn   int     // breaker state-change listeners left unregistered on the history's breakers (bits: OnClose OnOpen OnHalfOpen OnStateChanged); equals InstD.BNoLsn
 }
 
 func (r ReqD) withExec() bool { return strings.Contains(r.Entry, "WithExecution") }
@@ -134,9 +135,9 @@ func (r ReqD) Gallina() string {
 	} else if r.CtxKey >= 0 {
 		key = fmt.Sprintf("(CKStr %d)", r.CtxKey)
 	}
-	return fmt.Sprintf("{| q_stack := %s; q_script := %s; q_gap := %d; q_ext := %s; q_key := %s; q_withexec := %s; q_run := %s; q_lsn := (%s, %s, %s) |}",
+	return fmt.Sprintf("{| q_stack := %s; q_script := %s; q_gap := %d; q_ext := %s; q_key := %s; q_withexec := %s; q_run := %s; q_lsn := (%s, %s, %s); q_blsn := %d |}",
 		gList(ps), gList(ss), r.Gap, ext, key, gBool(r.withExec()), gBool(strings.HasPrefix(r.Entry, "Run")),
-		gBool(!r.NoLsn[0]), gBool(!r.NoLsn[1]), gBool(!r.NoLsn[2]))
+		gBool(!r.NoLsn[0]), gBool(!r.NoLsn[1]), gBool(!r.NoLsn[2]), 15&^r.BNoLsn)
 }
 
 type InstD struct {
@@ -144,6 +145,7 @@ type InstD struct {
 	Limiters  []LimCfg
 	Bulkheads [][3]int64 // capacity, permits held through the standalone API, max wait time
 	Caches    [][][2]int64
+	BNoLsn    int // breaker state-change listeners left unregistered on every breaker (see ReqD.BNoLsn)
 }
 
 func (d InstD) Gallina() string {
